@@ -426,3 +426,8 @@ def check_color(ck, bad):
                    "a test of the --color value guards calls to %s (or does not re-join)" % calls, run_fn.where(t),
                    ok_detail="%d blocks, no local function or effect called" % len(region))
     ck.floor(rule, "tests of the --color value", n, 3)
+    # --mmap reads the lines of a file from a mapping of the inode that was on disk: the result is the same as with the default loader
+    # only because that inode is never written again (files are replaced, C15-R1)
+    from . import c15
+    from ..framework import RuleAlias
+    c15.run(RuleAlias(ck, lambda r: "C14-R8" if r == "C15-R1" else None))
